@@ -1242,7 +1242,7 @@ func counterOtherWrites(c *Ctx, inc *ssa.Store) []string {
 							if stt, ok := pt.Elem().Underlying().(*types.Struct); ok {
 								for i := 0; i < stt.NumFields(); i++ {
 									if stt.Field(i) == fld {
-										if al, fresh := st.Addr.(*ssa.Alloc); !fresh || al.Block() != st.Block() {
+										if al, fresh := st.Addr.(*ssa.Alloc); (!fresh || al.Block() != st.Block()) && !keepsField(st, fld) {
 											out = append(out, c.pos(st.Pos()))
 										}
 									}
@@ -1271,10 +1271,27 @@ func counterOtherWrites(c *Ctx, inc *ssa.Store) []string {
 							}
 						}
 						if deref(fa.X.Type()).Underlying().(*types.Struct).Field(fa.Field) == fld {
+							// the second half of *p = T{f: p.f} built in place
+							restored := false
+							for _, o := range st.Block().Instrs {
+								if z, ok := o.(*ssa.Store); ok && z != st && z.Addr == fa.X && restoresField(st, z, fld) {
+									restored = true
+								}
+							}
+							if restored {
+								return
+							}
 							// initialisation inside the composite literal that creates the value is fine
 							if _, fresh := fa.X.(*ssa.Alloc); fresh && st.Block() == fa.X.(*ssa.Alloc).Block() {
 								if k, ok := st.Val.(*ssa.Const); ok && k.Value != nil && k.Value.ExactString() == "0" {
 									return
+								}
+								// T{count: p.count}: the new value carries the old count over (what happens to the new
+								// value is judged where it is stored as a whole)
+								if ld, ok := st.Val.(*ssa.UnOp); ok {
+									if fa2, ok := ld.X.(*ssa.FieldAddr); ok && deref(fa2.X.Type()).Underlying().(*types.Struct).Field(fa2.Field) == fld && !fa.X.(*ssa.Alloc).Heap {
+										return
+									}
 								}
 							}
 							out = append(out, c.pos(st.Pos()))
@@ -1451,4 +1468,85 @@ func hookWrappers(c *Ctx, h *ssa.Function) []*ssa.Function {
 		}
 	}
 	return out
+}
+
+// keepsField: the whole-struct store *p = T{…, f: p.f, …} leaves field f as it was.
+func keepsField(st *ssa.Store, fld *types.Var) bool {
+	ld, ok := st.Val.(*ssa.UnOp)
+	if !ok {
+		// built in place: *p = T{} followed by p.f = (p.f as loaded before)
+		if k, isC := st.Val.(*ssa.Const); isC && k.Value == nil {
+			after := false
+			for _, o := range st.Block().Instrs {
+				if o == ssa.Instruction(st) {
+					after = true
+					continue
+				}
+				if s2, ok := o.(*ssa.Store); ok && after && restoresField(s2, st, fld) {
+					return true
+				}
+			}
+		}
+		return false
+	}
+	al, ok := ld.X.(*ssa.Alloc)
+	if !ok || al.Referrers() == nil {
+		return false
+	}
+	fieldOf := func(fa *ssa.FieldAddr) *types.Var {
+		if stt, ok := deref(fa.X.Type()).Underlying().(*types.Struct); ok && fa.Field < stt.NumFields() {
+			return stt.Field(fa.Field)
+		}
+		return nil
+	}
+	kept, n := false, 0
+	for _, r := range *al.Referrers() {
+		fa, ok := r.(*ssa.FieldAddr)
+		if !ok || fieldOf(fa) != fld || fa.Referrers() == nil {
+			continue
+		}
+		for _, r2 := range *fa.Referrers() {
+			s2, ok := r2.(*ssa.Store)
+			if !ok || s2.Addr != ssa.Value(fa) {
+				continue
+			}
+			n++
+			if l2, ok := s2.Val.(*ssa.UnOp); ok && l2.Block() == st.Block() {
+				if fa2, ok := l2.X.(*ssa.FieldAddr); ok && fa2.X == st.Addr && fieldOf(fa2) == fld {
+					kept = true
+				}
+			}
+		}
+	}
+	return kept && n == 1
+}
+
+// restoresField: s2 stores to field fld of the struct that whole (a store in the same block, earlier) has just
+// overwritten, the value the field had before that overwrite.
+func restoresField(s2, whole *ssa.Store, fld *types.Var) bool {
+	fa, ok := s2.Addr.(*ssa.FieldAddr)
+	if !ok || fa.X != whole.Addr || s2.Block() != whole.Block() {
+		return false
+	}
+	stt, ok := deref(fa.X.Type()).Underlying().(*types.Struct)
+	if !ok || fa.Field >= stt.NumFields() || stt.Field(fa.Field) != fld {
+		return false
+	}
+	ld, ok := s2.Val.(*ssa.UnOp)
+	if !ok || ld.Block() != whole.Block() {
+		return false
+	}
+	fa2, ok := ld.X.(*ssa.FieldAddr)
+	if !ok || fa2.X != whole.Addr || fa2.Field != fa.Field {
+		return false
+	}
+	idx := func(in ssa.Instruction) int {
+		for i, o := range whole.Block().Instrs {
+			if o == in {
+				return i
+			}
+		}
+		return -1
+	}
+	return idx(ld) < idx(whole) && idx(whole) < idx(s2)
 }
